@@ -24,7 +24,12 @@ LAYOUTS = {
     # D: data cubes - celestial axes innermost (K) and a (RA, DEC, FREQ)-ordered array, i.e. FITS axes
     # FREQ, RA, DEC with the spectral axis innermost (U); both have a length-1 spectral axis
     "D": ["E", "I", "K", "U"],
+    # L: many extensions, so that per-file lists hold two-digit indices (only 1, 10 and 12 are enumerated)
+    "L": ["E"] + ["I"] * 12,
+    # V: a 2-D image whose alternate WCS "A" declares a virtual third axis (WCSAXESA = 3, FREQ)
+    "V": ["E", "I", "V"],
 }
+SELECTABLE = {"L": [1, 10, 12]}
 
 
 def _hdr_wcs(hdr, key, ra, dec, scale, nx, ny):
@@ -82,12 +87,19 @@ def make_file(path, layout, file_no):
             h = fits.PrimaryHDU(data) if kind == "P" else fits.ImageHDU(data)
             _hdr_wcs(h.header, " ", 10.0 + file_no, 20.0 + j, 1e-3, nx, ny)
             _hdr_wcs(h.header, "A", 200.0 + file_no, -30.0 - j, 2e-3, nx, ny)
+            if kind == "V":
+                h.header["WCSAXESA"] = 3
+                h.header["CTYPE3A"] = "FREQ"
+                h.header["CRVAL3A"] = 1.4e9
+                h.header["CRPIX3A"] = 1.0
+                h.header["CDELT3A"] = 1e6
+                h.header["CD3_3A"] = 1e6
             hdus.append(h)
     fits.HDUList(hdus).writeto(path, overwrite=True)
 
 
 def image_hdus(layout):
-    return [j for j, k in enumerate(LAYOUTS[layout]) if k in "PIKU"]
+    return [j for j, k in enumerate(LAYOUTS[layout]) if k in "PIKUV"]
 
 
 def expected(path, hdu_index, key):
@@ -102,6 +114,8 @@ def expected(path, hdu_index, key):
         # the celestial plane of a cube with a length-1 spectral axis
         data = data.reshape([n for n in data.shape if n != 1]) if 1 in data.shape else data[0]
         w = w.celestial
+    elif w.naxis > 2:
+        w = w.celestial  # a virtual extra axis declared by the selected WCS only
     return data, w
 
 
@@ -280,9 +294,9 @@ def check_case(case, d, part):
 def gen_cases(tier):
     lay_names = ["A", "B", "C"]
     if tier == "quick":
-        combos = [("A",), ("C",), ("D",), ("A", "B"), ("B", "C"), ("D", "A"), ("A", "A=0"), ("A", "B", "C"), ("C", "A", "A"), ("B", "D", "B=0")]
+        combos = [("A",), ("C",), ("D",), ("V",), ("L",), ("A", "B"), ("B", "C"), ("D", "A"), ("L", "L"), ("V", "A"), ("A", "A=0"), ("A", "B", "C"), ("C", "A", "A"), ("B", "D", "B=0"), ("L", "V", "L")]
     else:
-        lay_names = ["A", "B", "C", "D"]
+        lay_names = ["A", "B", "C", "D", "L", "V"]
         combos = []
         for n in (1, 2, 3):
             combos += list(itertools.product(lay_names, repeat=n))
@@ -290,7 +304,7 @@ def gen_cases(tier):
     cases = []
     for layouts in combos:
         n = len(layouts)
-        valid = [image_hdus(l.split("=")[0]) for l in layouts]
+        valid = [SELECTABLE.get(l.split("=")[0], image_hdus(l.split("=")[0])) for l in layouts]
         common = sorted(set(valid[0]).intersection(*valid[1:]))
         hdu_sels = [None] + common + [list(t) for t in itertools.product(*valid)]
         key_sels = [" ", "A"] + [list(t) for t in itertools.product([" ", "A"], repeat=n)]
